@@ -503,8 +503,27 @@ class Lib:
         sc = Scope(scope)
         var, dom = self.iter_domain(I, it, g.target, sc)
         if len(var) != 1 or var[0].sort() != z3.IntSort():
-            # comprehension over a set/map: only membership is known
-            raise Undecided('list comprehension over an unordered iterable')
+            # comprehension over a set / the items of a dict: every element exactly once, in an order the contract cannot rely on
+            if len(var) != 1 or g.ifs:
+                raise Undecided('filtered list comprehension over an unordered iterable')
+            k = var[0]
+            I.path.nofork += 1
+            I.path.guards.append(dom)
+            try:
+                e = I.eval(node.elt, sc)
+            finally:
+                I.path.guards.pop()
+                I.path.nofork -= 1
+            e = self.pack(I, e)
+            out = I.fresh(T('Seq', e.typ), 'comp')
+            pos = z3.Function(I.path.name('pos'), k.sort(), z3.IntSort())
+            key_at = z3.Function(I.path.name('key_at'), z3.IntSort(), k.sort())
+            j = z3.Int(I.path.name('j'))
+            n = seq_len(out)
+            I.path.assume(z3.ForAll([k], z3.Implies(dom, z3.And(0 <= pos(k), pos(k) < n, seq_arr(out)[pos(k)] == e.t, key_at(pos(k)) == k))))
+            I.path.assume(z3.ForAll([j], z3.Implies(z3.And(0 <= j, j < n), z3.And(z3.substitute(dom, (k, key_at(j))), pos(key_at(j)) == j))))
+            self.use('list comprehension over a set / dict: each element exactly once, order unspecified')
+            return out
         i = var[0]
         I.path.nofork += 1
         I.path.guards.append(dom)
@@ -540,6 +559,16 @@ class Lib:
         I.path.assume(z3.ForAll([i], z3.Implies(z3.And(dom, cond), z3.And(0 <= inv(i), inv(i) < n_out, pf(inv(i)) == i))))
         self.use('list comprehension with a filter: order-preserving enumeration of the selected positions')
         return out
+
+    def pack(self, I, e):
+        '''element of a symbolic sequence: Python tuples of terms become Tuple terms'''
+        if isinstance(e, SV):
+            return e
+        if isinstance(e, tuple):
+            parts = [self.pack(I, x) for x in e]
+            typ = T('Tuple', *[p.typ for p in parts])
+            return SV(typ, zsort(typ).mk(*[p.t for p in parts]))
+        return lift(e)
 
     def iter_len(self, I, it):
         if isinstance(it, SV) and it.typ.kind == 'Seq':
@@ -1000,6 +1029,10 @@ class Lib:
         if isinstance(recv, str):
             if all(isinstance(a, (str, int)) for a in args):
                 return getattr(recv, name)(*args, **kwargs)
+            if name == 'join' and len(args) == 1 and isinstance(args[0], SV) and args[0].typ.kind == 'Seq':
+                f = th.func('str_join_' + str(abs(hash(recv)) % 10 ** 6), zsort(args[0].typ), z3.StringSort())
+                self.use('str.join over a symbolic sequence: uninterpreted function of the sequence')
+                return SV(STR, f(args[0].t))
         if isinstance(recv, SArr):
             return self.arr_method(I, recv, name, args, kwargs)
         if isinstance(recv, SV):
@@ -1375,6 +1408,33 @@ class Lib:
                 if not same and (oid, f) not in allowed:
                     raise Undecided(f'loop body writes field {f} of {o["cls"]}#{oid}, which the loop contract does not havoc')
 
+    def _lift_concrete_vars(self, I, spec, scope):
+        '''locals the loop contract types symbolically but that are still concrete Python containers ([] / {} / set() built just
+        before the loop) are turned into terms of the declared type, so that the invariants can be evaluated on them'''
+        from .values import parse_type
+        for name, typ in spec.vars.items():
+            if '.' in name or callable(typ):
+                continue
+            try:
+                cur = scope.lookup(name)
+            except KeyError:
+                continue
+            t = parse_type(typ) if isinstance(typ, str) else typ
+            if isinstance(cur, (list, dict, set)) and not isinstance(cur, SV):
+                if len(cur) == 0 and t.kind in ('Seq', 'Set', 'Map'):
+                    val = self.empty_of(I, t)
+                elif isinstance(cur, (list, set)) and t.kind in ('Seq', 'Set'):
+                    try:
+                        val = lift(list(cur) if t.kind == 'Seq' else cur, t)
+                    except Undecided:
+                        continue
+                else:
+                    continue
+                s = scope
+                while s is not None and name not in s.vars:
+                    s = s.parent
+                (s or scope).set(name, val)
+
     def _ghost(self, I, spec, code, scope):
         for line in code:
             tree = ast.parse(line)
@@ -1425,6 +1485,7 @@ class Lib:
             n = self.iter_len(I, it)
         # init
         self._ghost(I, spec, spec.ghost_init, scope)
+        self._lift_concrete_vars(I, spec, scope)
         sc0 = Scope(scope)
         sc0.set(g, empty if not ordered else SV(INT, z3.IntVal(0)))
         self._check_invs(I, spec, sc0, label, 'inv-init')
@@ -1487,6 +1548,7 @@ class Lib:
     def loop_while(self, I, st, scope, ordinal, spec):
         label = str(ordinal)
         dead_after = self._check_loop_frame(I, st, spec, scope)
+        self._lift_concrete_vars(I, spec, scope)
         self._check_invs(I, spec, scope, label, 'inv-init')
         choice = I.path.choose(2, 'loop')
         self._havoc(I, spec, scope)
